@@ -75,7 +75,7 @@ static int apply(Pool &P, int op, const Real &k, const Real &k2, const Grid<Real
 
 void sequence_case(size_t n, std::pair<size_t, size_t> wa, std::pair<size_t, size_t> wb, std::vector<int> ops) {
   auto &E = Engine::get();
-  auto g = gridvars(n);
+  auto g = gridpoints(n);
   Grid<Real> grid(g);
   std::vector<Real> h = g;
   Real delta = Real::var("delta");
@@ -114,7 +114,7 @@ void sequence_case(size_t n, std::pair<size_t, size_t> wa, std::pair<size_t, siz
 // Support / Grid level: copies, moves, self-moves, algebra results
 void support_case(size_t n) {
   auto &E = Engine::get();
-  auto g = gridvars(n);
+  auto g = gridpoints(n);
   Grid<Real> grid(g);
   auto okwin = [&](const std::string &key, const Support<Real> &s, bool must_be_empty = false) {
     stats().obligations++;
@@ -152,6 +152,29 @@ static void seqs(size_t len, std::vector<int> &cur, std::vector<std::vector<int>
     cur.pop_back();
   }
 }
+#ifdef LARGE
+// large grids (fixed rational points, coefficients and scalars symbolic): the Support life cycle on every window pair of a 12-point
+// grid, every single operation and a sample of two-step sequences from sampled window pairs of a LARGE-point grid
+#ifndef NSAMPLE
+#define NSAMPLE 6
+#endif
+void hx_cases(std::vector<Case> &cases) {
+  cases.push_back({"support-large/n12", [=] { support_case(12); }});
+  std::vector<std::vector<int>> one, two;
+  { std::vector<int> cur; seqs(1, cur, one); seqs(2, cur, two); }
+  auto was = windows_sample(LARGE, NSAMPLE, 51), wbs = windows_sample(LARGE, NSAMPLE, 52);
+  size_t k = 0;
+  for (auto wa : was)
+    for (auto wb : wbs) {
+      for (auto &sq : one) cases.push_back({"seq-large/n" + std::to_string(LARGE) + "/wa" + W(wa) + "/wb" + W(wb) + "/ops-" + std::to_string(sq[0]), [=] { sequence_case(LARGE, wa, wb, sq); }});
+      for (size_t j = 0; j < 6; j++) {
+        auto sq = two[(k * 37 + j * 101) % two.size()];
+        cases.push_back({"seq-large/n" + std::to_string(LARGE) + "/wa" + W(wa) + "/wb" + W(wb) + "/ops-" + std::to_string(sq[0]) + "-" + std::to_string(sq[1]), [=] { sequence_case(LARGE, wa, wb, sq); }});
+      }
+      k++;
+    }
+}
+#else
 void hx_cases(std::vector<Case> &cases) {
   for (size_t n = 2; n <= MAXN + 1; n++) cases.push_back({"support/n" + std::to_string(n), [=] { support_case(n); }});
   std::vector<std::vector<int>> all;
@@ -171,3 +194,4 @@ void hx_cases(std::vector<Case> &cases) {
         }
       }
 }
+#endif
